@@ -150,6 +150,11 @@ type Update struct {
 	Withdraw           []NLRI // IPv4 in the withdrawn routes field, IPv6 in MP_UNREACH_NLRI
 	Announce           []NLRI // IPv4 in the NLRI field, IPv6 in MP_REACH_NLRI
 	MPv4               bool   // carry IPv4 in MP_REACH/MP_UNREACH as well
+	EmptyASPath        bool   // AS_PATH attribute without segments
+	Originator         uint32 // ORIGINATOR_ID (0: absent)
+	ClusterList        []uint32
+	OTC                uint32 // ONLY_TO_CUSTOMER (0: absent)
+	Communities        []uint32
 }
 
 func attr(flags, typ byte, val []byte) []byte {
@@ -185,7 +190,7 @@ func (u Update) Bytes() []byte {
 	if ann4 || ann6 {
 		attrs = append(attrs, attr(0x40, 1, []byte{0})...)
 		var seg []byte
-		if len(u.ASPath) > 0 {
+		if len(u.ASPath) > 0 && !u.EmptyASPath {
 			seg = []byte{2, byte(len(u.ASPath))}
 			for _, a := range u.ASPath {
 				if u.ASN4 {
@@ -201,6 +206,26 @@ func (u Update) Bytes() []byte {
 		}
 		if u.LocalPref >= 0 {
 			attrs = append(attrs, attr(0x40, 5, u32(uint32(u.LocalPref)))...)
+		}
+		if len(u.Communities) > 0 {
+			var v []byte
+			for _, c := range u.Communities {
+				v = append(v, u32(c)...)
+			}
+			attrs = append(attrs, attr(0xc0, 8, v)...)
+		}
+		if u.Originator != 0 {
+			attrs = append(attrs, attr(0x80, 9, u32(u.Originator))...)
+		}
+		if len(u.ClusterList) > 0 {
+			var v []byte
+			for _, c := range u.ClusterList {
+				v = append(v, u32(c)...)
+			}
+			attrs = append(attrs, attr(0x80, 10, v)...)
+		}
+		if u.OTC != 0 {
+			attrs = append(attrs, attr(0xc0, 35, u32(u.OTC))...)
 		}
 	}
 	if ann6 {
@@ -347,4 +372,87 @@ func AddPathTuples(open []byte) (out [][3]int) {
 		}
 	}
 	return out
+}
+
+// HiddenKind names the reason why a real session's Adj-RIB-In would hide the paths of this UPDATE that
+// also applies to the pseudo session of a monitored peer ("" if none): an eBGP path without AS_PATH
+// segments, or ORIGINATOR_ID equal to the monitored router's BGP identifier.
+func HiddenKind(m []byte, ebgp bool, routerID uint32) string {
+	if len(m) < 23 || m[18] != 2 {
+		return ""
+	}
+	b := m[19:]
+	wl := int(binary.BigEndian.Uint16(b))
+	if len(b) < 2+wl+2 {
+		return ""
+	}
+	b = b[2+wl:]
+	al := int(binary.BigEndian.Uint16(b))
+	if len(b) < 2+al {
+		return ""
+	}
+	attrs := b[2 : 2+al]
+	kind := ""
+	sawPath := false
+	for len(attrs) >= 3 {
+		fl, ty := attrs[0], attrs[1]
+		l, h := int(attrs[2]), 3
+		if fl&0x10 != 0 {
+			if len(attrs) < 4 {
+				break
+			}
+			l, h = int(binary.BigEndian.Uint16(attrs[2:])), 4
+		}
+		if len(attrs) < h+l {
+			break
+		}
+		v := attrs[h : h+l]
+		attrs = attrs[h+l:]
+		switch ty {
+		case 2:
+			sawPath = true
+			if l == 0 && ebgp {
+				kind = "empty-as-path-ebgp"
+			}
+		case 9:
+			if l == 4 && binary.BigEndian.Uint32(v) == routerID {
+				return "originator-id-is-router-id"
+			}
+		}
+	}
+	_ = sawPath
+	return kind
+}
+
+// ASN4Of reads the first 4-octet AS capability of an OPEN (with header).
+func ASN4Of(open []byte) (uint32, bool) {
+	if len(open) < 29 {
+		return 0, false
+	}
+	opt := open[29:]
+	if int(open[28]) < len(opt) {
+		opt = opt[:open[28]]
+	}
+	for len(opt) >= 2 {
+		t, l := opt[0], int(opt[1])
+		if len(opt) < 2+l {
+			return 0, false
+		}
+		v := opt[2 : 2+l]
+		opt = opt[2+l:]
+		if t != 2 {
+			continue
+		}
+		for len(v) >= 2 {
+			code, cl := v[0], int(v[1])
+			if len(v) < 2+cl {
+				break
+			}
+			if code == 65 && cl == 4 {
+				return binary.BigEndian.Uint32(v[2:6]), true
+			}
+			v = v[2+cl:]
+		}
+	}
+	return 0, false
 }
